@@ -1979,12 +1979,86 @@ func c09Edge(w *World, r *Result, rule string) {
 				}
 			}
 		}
+		// what is kept is what can be reached from the top-level key: the function that computes it
+		// (and its helpers) reads the call edges by key only — going over all recorded edges keeps
+		// what is only called from functions that are themselves never called
+		for _, b := range fn.Blocks {
+			for _, ins := range b.Instrs {
+				c, isCall := ins.(*ssa.Call)
+				if !isCall {
+					continue
+				}
+				isStart := false
+				for _, a := range c.Call.Args {
+					if k, ok := a.(*ssa.Const); ok && k.Value != nil && k.Value.Kind() == constant.String && constant.StringVal(k.Value) == "" {
+						isStart = true
+					}
+				}
+				g := c.Call.StaticCallee()
+				if !isStart || g == nil || g.Blocks == nil || pkgOf(g) != pkgOf(fn) {
+					continue
+				}
+				var whole []string
+				seenFn := map[*ssa.Function]bool{}
+				var walk func(h *ssa.Function, d int)
+				walk = func(h *ssa.Function, d int) {
+					if h == nil || h.Blocks == nil || seenFn[h] || d > 3 || pkgOf(h) != pkgOf(fn) {
+						return
+					}
+					seenFn[h] = true
+					for _, a := range h.AnonFuncs {
+						walk(a, d)
+					}
+					for _, hb := range h.Blocks {
+						for _, hi := range hb.Instrs {
+							switch y := hi.(type) {
+							case *ssa.Range:
+								if isEdgeMap(y.X.Type()) {
+									whole = append(whole, w.Pos(y.Pos()))
+								}
+							case *ssa.Call:
+								if cal := y.Call.StaticCallee(); cal != nil {
+									if n := cal.String(); strings.HasPrefix(n, "maps.Keys") || strings.HasPrefix(n, "maps.Values") || strings.HasPrefix(n, "maps.All") {
+										if len(y.Call.Args) == 1 && isEdgeMap(y.Call.Args[0].Type()) {
+											whole = append(whole, w.Pos(y.Pos()))
+										}
+									}
+									walk(cal, d+1)
+								}
+							}
+						}
+					}
+				}
+				walk(g, 0)
+				key := "edge:closure-keyed:" + FuncName(g)
+				if len(whole) > 0 {
+					r.Bad(rule, key, whole[0], "the set of functions to keep is computed by going over all recorded call edges instead of following them from the top-level key: a function that is only called from functions which are never called is kept (and emitted)")
+				} else {
+					r.Ok(rule, key, w.Pos(g.Pos()), "the call edges are read by key only while the set of functions to keep is computed")
+				}
+			}
+		}
 		if ok && startOK {
 			r.Ok(rule, "edge:removal", pos, "only function definitions outside the closure of the top-level key are removed")
 		} else {
 			r.Bad(rule, "edge:removal", pos, "the unused-function filter can remove something executed code reaches ("+why+fmt.Sprintf("; closure from top-level key %v)", startOK))
 		}
 	}
+}
+
+// isEdgeMap: a map from a name to a collection of names (list or set).
+func isEdgeMap(t types.Type) bool {
+	m, ok := t.Underlying().(*types.Map)
+	if !ok || !isString(m.Key()) {
+		return false
+	}
+	switch e := m.Elem().Underlying().(type) {
+	case *types.Slice:
+		return isString(e.Elem())
+	case *types.Map:
+		return isString(e.Key())
+	}
+	return false
 }
 
 // reachesBefore: a is executed on every path before b (dominance, or same map key update in a join).
